@@ -389,6 +389,14 @@ def _flowpath(P, B, D, exact):
          il(B["idxcells_area"])]
 
 
+def _boundary(P, B, D, exact):
+    n = max(P["nval"], 0)
+    cells = sorted(int(x) for x in list(B["idxcells_area"])[:n])        # `qsort` comes first in the kernel
+    return "boundary", [("idxcellsArea", "idxcells_area"), ("buffer", "buffer"), ("mask", "catchment_area_mask"),
+                        ("idxboundary", "idxcells_boundary")], \
+        [P["nrows"], P["ncols"], P["nval"], il(cells), il(B["catchment_area_mask"])]
+
+
 BUILDERS = {
     "c_aggregate": _agg, "c_flathomogen": _hom, "c_islin": _islin, "c_eckhardt": _eck, "c_var2h": _var2h,
     "c_dateutils_add1month": _add1month, "c_dateutils_add1day": _add1day, "c_dateutils_getdate": _getdate,
@@ -402,11 +410,11 @@ BUILDERS = {
     "c_neighbours": _neighbours, "c_upstream": _upstream, "c_downstream": _downstream,
     "c_accumulate": _accumulate, "c_slope": _slope, "c_slice": _slice, "c_intersect": _intersect,
     "c_voronoi": _voronoi, "c_inside": _inside, "c_exclude_zero_area_boundary": _exclzero,
-    "c_delineate_river": _river, "c_delineate_flowpathlengths_in_catchment": _flowpath,
+    "c_delineate_river": _river, "c_delineate_boundary": _boundary, "c_delineate_flowpathlengths_in_catchment": _flowpath,
 }
 
 # kernels reachable from the API without footprint model (covered by the sanitizer oracle only)
-NO_MODEL = ["c_delineate_area", "c_delineate_boundary", "c_dateutils_isleapyear"]
+NO_MODEL = ["c_delineate_area", "c_dateutils_isleapyear"]
 
 
 def request(model, pairs, toks, extents):
